@@ -315,7 +315,7 @@ func (a *appGenerator) makeCodegenApp() (GenApp, error) {
 	// two definitions that mangle to the same Go type (or file) would silently overwrite each other
 	goModels := make(map[string]string, len(genModels))
 	for _, model := range genModels {
-		goName := strings.ToLower(swag.ToFileName(pascalize(model.Name)))
+		goName := strings.ToLower(pascalize(model.Name))
 		if other, found := goModels[goName]; found {
 			return GenApp{}, fmt.Errorf("definitions %q and %q cannot be told apart once converted to go names (%s): rename one of them or use x-go-name",
 				other, model.Name, pascalize(model.Name))
@@ -421,7 +421,7 @@ func (a *appGenerator) makeCodegenApp() (GenApp, error) {
 	// same for operations, within a package
 	goOps := make(map[string]string, len(genOps))
 	for _, op := range genOps {
-		goName := op.Package + "." + strings.ToLower(swag.ToFileName(pascalize(op.Name)))
+		goName := op.Package + "." + strings.ToLower(pascalize(op.Name))
 		if other, found := goOps[goName]; found {
 			return GenApp{}, fmt.Errorf("operations %q and %q cannot be told apart once converted to go names (%s): set distinct operationIds",
 				other, op.Name, pascalize(op.Name))
